@@ -307,6 +307,27 @@ impl Property for C15 {
                 return Outcome::violation(format!("{}@{}", p.signature(), who), ctx(format!("{} panicked: {} at {}", w, p.msg, p.loc)));
             }
         };
+        // a regional variant selected in a session that has already used other configurations (the cases of a chunk share
+        // one session) must load its own files: speech and overview equal those of a session that only ever had this
+        // language, style and verbosity
+        if cfg.lang.contains('-') {
+            let mut only = cfg.clone();
+            only.code = "Nemeth".to_string();
+            if let Ok(fresh) = reference(&only, &case.expr) {
+                for name in ["get_spoken_text", "get_overview_text"] {
+                    let here = out.iter().find(|x| x.0 == name).map(|x| &x.1);
+                    let there = fresh.iter().find(|x| x.0 == name).map(|x| &x.1);
+                    if let (Some(Ok(a)), Some(Ok(b))) = (here, there) {
+                        if a != b {
+                            viols.push((format!("regional-variant-not-loaded:{}:{}", cfg.lang, name), ctx(format!("{} in a session that used other configurations before differs from a session that only had Language={}
+here:  {}
+fresh: {}", name, cfg.lang, a, b))));
+                            break;
+                        }
+                    }
+                }
+            }
+        }
         let en_of = |name: &str| en.iter().find(|x| x.0 == name).map(|x| &x.1);
         let is_speech_cfg = key_of(cfg).starts_with("lang:");
         for (name, r) in &out {
